@@ -256,11 +256,12 @@ pub struct Gen {
     dead_ops: usize,
     was_live: bool,
     pub next_spid: u16,
+    pub steps_left: usize,
 }
 
 impl Gen {
     pub fn new(seed: u64, p: Profile) -> Self {
-        Gen { rng: Rng::new(seed), p, tag: 0, conns: 0, dead_ops: 0, was_live: false, next_spid: 1 }
+        Gen { rng: Rng::new(seed), p, tag: 0, conns: 0, dead_ops: 0, was_live: false, next_spid: 1, steps_left: 60 }
     }
 
     fn cancel(&mut self) -> Option<usize> {
@@ -521,19 +522,35 @@ impl Gen {
                 None => Step::Poll { max_wait: 0, cancel_at: None },
             },
             14 => {
-                // stale / duplicate / mismatched acknowledgement
-                let kind = *rng.pick(&[4u8, 5, 7, 9, 11]);
-                let pid = match rng.below(3) {
-                    0 => 1 + rng.below(12) as u16,
-                    1 => v.snap.next_packet_id.wrapping_sub(1).max(1),
-                    _ => v.snap.tx.retained.first().map(|e| e.packet_id).unwrap_or(3),
-                };
-                let pkt = match kind {
-                    9 => SPacket::SubAck { pid, props: vec![], codes: vec![0] },
-                    11 => SPacket::UnsubAck { pid, props: vec![], codes: vec![0] },
-                    k => SPacket::ack(k, pid, *rng.pick(&[0u8, 0, 0x80])),
-                };
-                Step::Broker(BrokerAct::Send(pkt))
+                // stale / duplicate acknowledgement. A conformant broker never acknowledges an
+                // identifier with the wrong packet type, so (unless hostile) only identifiers that
+                // are not in flight are used, plus duplicate PUBRECs for exchanges in release.
+                let inflight: Vec<u16> = v.snap.tx.retained.iter().chain(v.snap.tx.release.iter()).map(|e| e.packet_id).collect();
+                let in_release: Vec<u16> = v.snap.tx.release.iter().map(|e| e.packet_id).collect();
+                if !p.hostile_broker && !in_release.is_empty() && rng.chance(1, 3) {
+                    Step::Broker(BrokerAct::Send(SPacket::ack(5, *rng.pick(&in_release), 0)))
+                } else {
+                    let kind = *rng.pick(&[4u8, 5, 7, 9, 11]);
+                    // identifiers behind the allocation counter cannot be handed out again before a
+                    // wrap, so an acknowledgement for one of them stays stale however late it is read
+                    let behind = v.snap.next_packet_id.saturating_sub(1);
+                    let mut pid = if behind >= 1 { 1 + rng.below(behind as usize) as u16 } else { 0 };
+                    if p.hostile_broker {
+                        pid = match rng.below(3) {
+                            0 => inflight.first().copied().unwrap_or(1),
+                            1 => v.snap.next_packet_id,
+                            _ => pid.max(1),
+                        };
+                    } else if pid == 0 || inflight.contains(&pid) {
+                        return Step::Poll { max_wait: 0, cancel_at: None };
+                    }
+                    let pkt = match kind {
+                        9 => SPacket::SubAck { pid, props: vec![], codes: vec![0] },
+                        11 => SPacket::UnsubAck { pid, props: vec![], codes: vec![0] },
+                        k => SPacket::ack(k, pid, *rng.pick(&[0u8, 0, 0x80])),
+                    };
+                    Step::Broker(BrokerAct::Send(pkt))
+                }
             }
             15 => {
                 let pid = if rng.chance(1, 2) {
@@ -564,6 +581,10 @@ impl Gen {
 
 impl Driver for Gen {
     fn next(&mut self, v: &View<'_>) -> Option<Step> {
+        if self.steps_left == 0 {
+            return None;
+        }
+        self.steps_left -= 1;
         if !v.has_handle {
             self.was_live = false;
             if self.conns >= self.p.max_conns {
@@ -599,5 +620,83 @@ impl Driver for Gen {
         }
         self.was_live = true;
         Some(self.live_step(v))
+    }
+}
+
+/// Benign continuation appended to any program: reconnect over a healthy transport to a
+/// conformant, immediately answering broker without restrictive limits, then poll until idle.
+pub struct WithEpilogue<D> {
+    pub inner: D,
+    stage: u8,
+    polls: usize,
+    pub max_polls: usize,
+    pub from_step: Option<usize>,
+}
+
+impl<D> WithEpilogue<D> {
+    pub fn new(inner: D, max_polls: usize) -> Self {
+        WithEpilogue { inner, stage: 0, polls: 0, max_polls, from_step: None }
+    }
+}
+
+pub fn benign_connect(resume: bool) -> ConnectSpec {
+    ConnectSpec {
+        policy: IoPolicy::default(),
+        faults: vec![],
+        connack: ConnackSpec::Normal { sp: SpMode::Force(resume), reason: 0, props: vec![] },
+        broker: BrokerPolicy::default(),
+        cancel_at: None,
+    }
+}
+
+impl<D: Driver> Driver for WithEpilogue<D> {
+    fn next(&mut self, v: &View<'_>) -> Option<Step> {
+        use crate::exec::{ErrRepr, Outcome};
+        if self.stage == 0 {
+            if let Some(s) = self.inner.next(v) {
+                return Some(s);
+            }
+            self.stage = 1;
+            self.from_step = Some(v.log.steps.len());
+        }
+        loop {
+            match self.stage {
+                1 => {
+                    self.stage = 2;
+                    if v.has_handle {
+                        return Some(Step::DropConn);
+                    }
+                }
+                2 => {
+                    self.stage = 3;
+                    // resume iff the client is going to ask for it
+                    return Some(Step::Connect(benign_connect(v.snap.session_present)));
+                }
+                3 => {
+                    let last = v.log.ops.last();
+                    match last.map(|o| (&o.outcome, o.kind)) {
+                        Some((Outcome::CallerTimeout, "poll")) => {
+                            self.stage = 4;
+                            return Some(Step::Drive { cancel_at: None });
+                        }
+                        Some((Outcome::Err(ErrRepr::Rejected(_)), _)) | Some((Outcome::Ok(_), _)) => {}
+                        _ => {
+                            self.stage = 5;
+                            continue;
+                        }
+                    }
+                    if self.polls >= self.max_polls || !v.has_handle {
+                        self.stage = 5;
+                        continue;
+                    }
+                    self.polls += 1;
+                    return Some(Step::Poll { max_wait: 0, cancel_at: None });
+                }
+                4 => {
+                    self.stage = 5;
+                }
+                _ => return None,
+            }
+        }
     }
 }
